@@ -127,6 +127,8 @@ func drawRuneOfClass(t *rapid.T, class int) rune {
 var syntaxLookalikes = []string{
 	`],"a":[`, `null`, `true`, `1e5`, `A`, `{"a":1}`, `\`, `"`, `\"`, `\\`, `//`, `\n`, `0x10`, `-0`, `1.0`,
 	`😀`, `\/`, `","`, `":"`, `}]`, ` `, `NaN`, `Infinity`,
+	// a value-like token right after a structural character, as a token-level rewrite of the text would match it
+	`range:-Inf..0`, `a,+Inf`, `k[NaN.0`, `:null`, `,true]`, `[1,2]`, `:NaN.0,`, `{"a":+Inf}`, `<b>&amp;</b>`, `%d%s`, `${HOME}`, `/* c */`,
 }
 
 // GenString draws a valid-UTF-8 string from the class tables.
